@@ -1,8 +1,242 @@
 import GraafVerif.Driver.Common
-/-! Driver handlers for property C15 (ops the harness module `ops/c15.rs` emits). -/
-namespace GraafVerif.Driver.H15
-open GraafVerif GraafVerif.Driver
+import GraafVerif.Driver.ReprDesc
+import GraafVerif.Model.Rand
+/-!
+Driver handlers for C15:
 
-def handlers : List (String × Handler) := []
+  rand_tournament <repr> <order> <seed>                  =>  <obs|panic> <repeat>
+  rand_rrt        <repr> <order> <seed>                  =>  <obs|panic> <repeat>
+  rand_er         <repr> <order> <pbits> <qbits> <seed>  =>  <obs|panic> <repeat>
+  rand_f64        <seed> <k>                             =>  [bits …]
+  rand_u64        <seed> <k>                             =>  [u64 …]
+
+Correspondence: the generators of `Model/Rand.lean` run on the bit-exact xoshiro256** stream
+(worker `k` of the map variants on the stream of `seed + k`, with the thread count `t` the harness saw).
+Property oracle (on the IMPLEMENTATION's observation, by an arc-count matrix, independent of the
+model): the validity predicates of the property text, `repeat = true`, `next_f64 ∈ [0,1)`.
+-/
+namespace GraafVerif.Driver.H15
+open GraafVerif GraafVerif.Driver GraafVerif.Rand GraafVerif.Repr
+
+def seed? (v : V) : Option UInt64 := do
+  let n ← V.nat? v
+  if n < 2^64 then some (UInt64.ofNat n) else none
+
+/-- First `k` draws of the workers `0 .. w-1` (`seed + id`, wrapping), materialised.
+(The arrays are `let`-bound in the handlers and captured by the stream closures: a `def` returning
+a function would recompute them on every draw.) -/
+def workerDraws (seed : UInt64) (k w : Nat) : Array (Array UInt64) :=
+  ((List.range w).map fun i => xoTake (seed + UInt64.ofNat i) k).toArray
+
+def streamsOfArrays (arrs : Array (Array UInt64)) : Nat → Stream :=
+  fun i => streamOfArray (arrs.getD i #[])
+
+structure Obs where
+  order : Nat
+  verts : List Nat
+  arcs : List (Nat × Nat)
+
+def parseObs : V → Option Obs
+  | .l [n, vs, as] => do
+    pure ⟨← V.nat? n, ← V.listOf? V.nat? vs, ← V.listOf? (V.pair? V.nat? V.nat?) as⟩
+  | _ => none
+
+/-- `m[u*n+v]` = how often the arc `u→v` was observed; `none` = some endpoint is not in `0..n`. -/
+def countMatrix (n : Nat) (arcs : List (Nat × Nat)) : Option (Array Nat) :=
+  arcs.foldlM (fun m a => if a.1 < n && a.2 < n then some (m.modify (a.1 * n + a.2) (· + 1)) else none)
+    (Array.replicate (n * n) 0)
+
+def cnt (m : Array Nat) (n u v : Nat) : Nat := m.getD (u * n + v) 0
+
+/-- order, vertex set `0..n`, arcs inside the vertex set; then `k` on the count matrix. -/
+def shape (n : Nat) (o : Obs) (k : Array Nat → Option String) : Option String :=
+  if o.order != n then some s!"order {o.order} != {n}"
+  else if o.verts != List.range n then some "vertex set is not 0..order"
+  else match countMatrix n o.arcs with
+    | none => some "arc endpoint outside 0..order"
+    | some m => k m
+
+def firstFail (xs : List Nat) (f : Nat → Option String) : Option String := xs.findSome? f
+
+/-- exactly one arc between every pair of distinct vertices, no self-loop -/
+def tournamentOracle (n : Nat) (o : Obs) : Option String :=
+  shape n o fun m => firstFail (List.range n) fun u => firstFail (List.range n) fun v =>
+    if u = v then (if cnt m n u u != 0 then some s!"self-loop at {u}" else none)
+    else if u < v && cnt m n u v + cnt m n v u != 1 then
+      some s!"pair {u},{v}: {cnt m n u v} arc(s) {u}->{v}, {cnt m n v u} arc(s) {v}->{u}"
+    else none
+
+/-- vertex 0 has no out-arc, every `u ≥ 1` exactly one, to a smaller vertex -/
+def rrtOracle (n : Nat) (o : Obs) : Option String :=
+  shape n o fun m => firstFail (List.range n) fun u =>
+    let row := (List.range n).map (cnt m n u)
+    if u = 0 then (if row.sum != 0 then some "vertex 0 has an out-arc" else none)
+    else if row.sum != 1 then some s!"vertex {u} has {row.sum} out-arcs"
+    else if ((List.range u).map (cnt m n u)).sum != 1 then some s!"vertex {u}: out-arc to a vertex >= {u}"
+    else none
+
+/-- no self-loop, no arc twice; `p = 0` ⇒ no arcs, `p = 1` ⇒ all arcs -/
+def erOracle (n : Nat) (p : F64) (o : Obs) : Option String :=
+  shape n o fun m => firstFail (List.range n) fun u => firstFail (List.range n) fun v =>
+    let c := cnt m n u v
+    if u = v then (if c != 0 then some s!"self-loop at {u}" else none)
+    else if c > 1 then some s!"arc {u}->{v} listed {c} times"
+    else if p == F64.zero && c != 0 then some s!"p = 0 but arc {u}->{v}"
+    else if p == F64.one && c != 1 then some s!"p = 1 but no arc {u}->{v}"
+    else none
+
+def seedTag (s : UInt64) : String :=
+  if s == 0 then "seed0" else if s == 1 then "seed1" else if s.toNat + 3 ≥ 2^64 then "seed-wrap" else "seed-any"
+
+/-- how the rows are split over the workers (map variants): one row per worker (`n ≤ t`), all
+chunks full, last chunk short, or the loop `break`s before `t` workers were spawned -/
+def threadTag (n t : Nat) : String :=
+  let w := min n t
+  let rs := Par.ranges n w
+  if n ≤ t then "chunk=1"
+  else if rs.length < w then "fewer-workers"
+  else if n % w = 0 then "full-chunks" else "short-last"
+
+def optObs {α : Type} (f : α → V) : Option α → V
+  | some g => f g
+  | none => .a "panic"
+
+/-- Common tail: model output vs observation, oracle, repeat flag. -/
+def finish (n : Nat) (observed : List V) (modelObs : V) (seqAgree : Bool)
+    (mustPanic : Bool) (oracle : Obs → Option String) (tags : List String) : Option Verdict :=
+  match observed with
+  | [o, rep] => do
+    let rep ← V.bool? rep
+    let isPanic := o == V.a "panic"
+    let pf : Option String ←
+      if n = 0 then pure none                                   -- outside the property
+      else if !rep then pure (some "second call with equal arguments returned a different result")
+      else if mustPanic then pure (if isPanic then none else some "no panic for p outside [0,1]")
+      else if isPanic then pure (some "panic on an input the property covers")
+      else do
+        let ob ← parseObs o
+        pure (oracle ob)
+    let tags := tags ++ [sizeTag n, if isPanic then "panic" else "returned"]
+    let v := classify observed [modelObs, V.ofBool true] pf (nt := n ≥ 2) tags
+    if v.status == "OK" && !seqAgree then
+      pure { v with status := "MISMATCH", detail := "models of the sequential representations disagree" }
+    else pure v
+  | _ => none
+
+def allEq (xs : List V) : Bool :=
+  match xs with
+  | [] => true
+  | x :: rest => rest.all (· == x)
+
+def hTournament : Handler := fun t args obs =>
+  match args with
+  | [.a repr, n, seed] => do
+    let n ← V.nat? n
+    let seed ← seed? seed
+    let draws := xoTake seed (n * n)
+    let s := streamOfArray draws
+    let al := optObs obsAL (tournamentAL s n)
+    let tags := ["tournament", repr, seedTag seed]
+    match repr with
+    | "am" =>
+      let w := min n t
+      let wd := workerDraws seed (n * n) w
+      let m := optObs obsAM (tournamentAM (streamsOfArrays wd) n t)
+      finish n obs m (w != 1 || m == al) false (tournamentOracle n) (tags ++ [threadTag n t])
+    -- the sequential representations consume the stream identically: `mx`/`el` lines also check
+    -- that their model agrees with the `al` model
+    | "al" => finish n obs al true false (tournamentOracle n) tags
+    | "mx" =>
+      let m := optObs obsMX (tournamentMX s n)
+      finish n obs m (m == al) false (tournamentOracle n) tags
+    | "el" =>
+      let m := optObs obsEL (tournamentEL s n)
+      finish n obs m (m == al) false (tournamentOracle n) tags
+    | _ => none
+  | _ => none
+
+def hRrt : Handler := fun _ args obs =>
+  match args with
+  | [.a repr, n, seed] => do
+    let n ← V.nat? n
+    let seed ← seed? seed
+    let draws := xoTake seed n
+    let s := streamOfArray draws
+    let al := optObs obsAL (rrtAL s n)
+    let am := optObs obsAM (rrtAM s n)
+    let mx := optObs obsMX (rrtMX s n)
+    let el := optObs obsEL (rrtEL s n)
+    let m ← match repr with
+      | "al" => some al | "am" => some am | "mx" => some mx | "el" => some el | _ => none
+    finish n obs m (allEq [al, am, mx, el]) false (rrtOracle n) ["rrt", repr, seedTag seed]
+  | _ => none
+
+def pTag (p : F64) : String :=
+  if !p.inUnit then "p-out" else if p == F64.zero then "p=0" else if p == F64.one then "p=1"
+  else if p.gtHalf then "p>.5" else "p<=.5"
+
+def hEr : Handler := fun t args obs =>
+  match args with
+  | [.a repr, n, pbits, qbits, seed] => do
+    let n ← V.nat? n
+    let seed ← seed? seed
+    let p := F64.ofBits (← seed? pbits)
+    let q := F64.ofBits (← seed? qbits)
+    -- trusted IEEE fact, checked on every case: `1.0 - p` is exact for p in (0.5, 1]
+    if p.inUnit && p.gtHalf && q != p.oneMinus then
+      pure (bad "harness computed 1.0 - p differently from the exact difference")
+    else
+      let draws := xoTake seed (n * n)
+      let s := streamOfArray draws
+      let al := optObs obsAL (erAL s n p)
+      let tags := ["er", repr, seedTag seed, pTag p]
+      let mustPanic := !p.inUnit
+      match repr with
+      | "am" =>
+        let w := min n t
+        let wd := workerDraws seed (n * n) w
+        let m := optObs obsAM (erAM (streamsOfArrays wd) n t p)
+        finish n obs m (w != 1 || p.gtHalf || m == al) mustPanic (erOracle n p) (tags ++ [threadTag n t])
+      | "al" => finish n obs al true mustPanic (erOracle n p) tags
+      | "mx" =>
+        let m := optObs obsMX (erMX s n p)
+        finish n obs m (m == al) mustPanic (erOracle n p) tags
+      | "el" =>
+        let m := optObs obsEL (erEL s n p)
+        finish n obs m (m == al) mustPanic (erOracle n p) tags
+      | _ => none
+  | _ => none
+
+/-- `next_f64` outputs as bit patterns; oracle: each decodes to a value in `[0, 1)`. -/
+def hF64 : Handler := fun _ args obs =>
+  match args, obs with
+  | [seed, k], [.l outs] => do
+    let seed ← seed? seed
+    let k ← V.nat? k
+    let arr := xoTake seed k
+    let model := V.l (arr.toList.map fun w => V.ofNat (f64BitsOfMant (mant w)))
+    let outs ← outs.mapM seed?
+    let pf := outs.findSome? fun b =>
+      match F64.ofBits b with
+      | .fin num => if 0 ≤ num && num < 2^1074 then none else some s!"next_f64 bits {b.toNat} outside [0,1)"
+      | _ => some s!"next_f64 bits {b.toNat} not finite"
+    -- the model's own encoding decodes back to m / 2^52 (self-check of the bit encoder)
+    let selfOk := arr.toList.all fun w =>
+      F64.ofBits (UInt64.ofNat (f64BitsOfMant (mant w))) == .fin ((mant w : Int) * 2^1022)
+    if !selfOk then pure (bad "f64 encoder self-check")
+    else pure (classify obs [model] pf (nt := k ≥ 1) ["f64", seedTag seed])
+  | _, _ => none
+
+def hU64 : Handler := fun _ args obs =>
+  match args with
+  | [seed, k] => do
+    let seed ← seed? seed
+    let k ← V.nat? k
+    let model := V.l ((xoTake seed k).toList.map fun w => V.ofNat w.toNat)
+    pure (classify obs [model] none (nt := k ≥ 1) ["u64", seedTag seed])
+  | _ => none
+
+def handlers : List (String × Handler) :=
+  [("rand_tournament", hTournament), ("rand_rrt", hRrt), ("rand_er", hEr), ("rand_f64", hF64), ("rand_u64", hU64)]
 
 end GraafVerif.Driver.H15
